@@ -13,6 +13,7 @@ import (
 	"io"
 	"log"
 	"os"
+	"os/exec"
 	"sort"
 	"strings"
 
@@ -110,15 +111,15 @@ func (s *sched) Run(c *verifhook.Cmd) error {
 	if probe {
 		s.log("probe", tool)
 		if state == "missing" {
-			err = errors.New("exit status 1")
+			err = &exec.ExitError{}
 		}
 	} else {
 		s.log("run", tool+" "+c.Args[len(c.Args)-1])
 		switch state {
 		case "missing":
-			err = errors.New("executable file not found in $PATH")
+			err = &exec.Error{Name: tool, Err: exec.ErrNotFound}
 		case "failing":
-			err = errors.New("exit status 2")
+			err = &exec.ExitError{}
 		}
 	}
 	return err
